@@ -10,7 +10,7 @@ LEVEL = "exploration"
 RULE = (
     "Hypothesis RuleBasedStateMachine over histories (<= 25 steps, contexts nested to depth 3) of "
     "{arm global check, activate ML env with/without additions, remove hooks, enter safety "
-    "context, leave normally, leave by exception (LIFO), probe pickle.load / pickle.loads / "
+    "context (a fresh manager, one created earlier, or the innermost open one again), leave normally, leave by exception (LIFO), probe pickle.load / pickle.loads / "
     "_pickle.load / _pickle.loads}. Oracle = explicit lifecycle model of the four bindings "
     "(orig / check / ml) plus a stack of entry snapshots: after every step each binding the model "
     "calls 'orig' must BE the function object captured before fickling was imported (identity), "
@@ -132,11 +132,15 @@ def _distinguishes(state):
     return _DIST[state]
 
 
+_SPARE = []
+
+
 class Boom(Exception):
     pass
 
 
-def step(model, ctxs, st):
+def step(model, ctxs, st, spare=None):
+    spare = spare if spare is not None else _SPARE
     import fickling
     import fickling.hook as hook
 
@@ -155,6 +159,22 @@ def step(model, ctxs, st):
         c.__enter__()
         ctxs.append(c)
         model.enter()
+    elif kind == "create":
+        # a manager object made now and entered later (possibly after the protection changed)
+        spare.append(fickling.check_safety())
+    elif kind == "enter_spare":
+        if spare:
+            c = spare.pop(0)
+            c.__enter__()
+            ctxs.append(c)
+            model.enter()
+    elif kind == "reenter":
+        # the manager of the innermost open block is entered again (and left again later)
+        if ctxs:
+            c = ctxs[-1]
+            c.__enter__()
+            ctxs.append(c)
+            model.enter()
     elif kind == "leave":
         c = ctxs.pop()
         r = c.__exit__(None, None, None)
@@ -222,10 +242,10 @@ def step(model, ctxs, st):
 
 def run_history(history):
     reset_pickle_bindings()
-    model, ctxs = Model(), []
+    model, ctxs, spare = Model(), [], []
     try:
         for st in history:
-            msg = step(model, ctxs, tuple(st))
+            msg = step(model, ctxs, tuple(st), spare)
             if msg:
                 return msg
         return None
@@ -250,12 +270,13 @@ def _machine(res, holder):
             reset_pickle_bindings()
             self.model = Model()
             self.ctxs = []
+            self.spare = []
             self.history = []
             self.feat = set()
 
         def _do(self, stp):
             self.history.append(stp)
-            msg = step(self.model, self.ctxs, stp)
+            msg = step(self.model, self.ctxs, stp, self.spare)
             if msg:
                 case = {"history": [[list(x) if isinstance(x, tuple) else x for x in s] for s in self.history]}
                 holder["f"] = Failure(case, f"after {len(self.history)} steps: {msg}")
@@ -288,6 +309,23 @@ def _machine(res, holder):
             if self.ctxs or self.model.b["pickle.load"] != "orig":
                 self.feat.add("nested")
             self._do(("enter",))
+
+        @precondition(lambda self: len(self.spare) < 2)
+        @rule()
+        def create(self):
+            self._do(("create",))
+
+        @precondition(lambda self: self.spare and len(self.ctxs) < 3)
+        @rule()
+        def enter_spare(self):
+            self.feat.add("deferred-entry")
+            self._do(("enter_spare",))
+
+        @precondition(lambda self: self.ctxs and len(self.ctxs) < 3)
+        @rule()
+        def reenter(self):
+            self.feat.add("re-entered")
+            self._do(("reenter",))
 
         @precondition(lambda self: self.ctxs)
         @rule()
